@@ -170,7 +170,7 @@ pub(crate) fn peer_client_config(offer: Offer, cert: Option<&str>) -> Arc<rustls
     Arc::new(cfg)
 }
 
-fn peer_server_config(offer: Offer, cert: &str) -> Arc<rustls::ServerConfig> {
+pub(crate) fn peer_server_config(offer: Offer, cert: &str) -> Arc<rustls::ServerConfig> {
     let p = provider();
     let cfg = rustls::ServerConfig::builder_with_provider(p.clone())
         .with_protocol_versions(offer.versions())
